@@ -173,12 +173,13 @@ class Parser:
             procs.append(cur)
         while self.i < len(self.flat):
             ln, label, toks, raw = self.flat[self.i]
-            # PROCEDURE name
-            if len(toks) != 2 or toks[1].kind != "id":
+            # PROCEDURE name (names follow the tool's own pattern [A-Za-z0-9_-]+, so '-' is tolerated)
+            m = re.match(r"(?i)\s*(?:\d+\s+)?procedure\s+([A-Za-z0-9_$-]+)\s*$", raw)
+            if not m:
                 raise B09SyntaxError("malformed PROCEDURE header", ln, raw)
             self.i += 1
             body, term = self.block(stop=("PROCEDURE",), top=True)
-            procs.append(Node("proc", line=ln, name=toks[1].text, body=body))
+            procs.append(Node("proc", line=ln, name=m.group(1), body=body))
         return procs
 
     def first_word(self, toks):
